@@ -236,6 +236,17 @@ pub fn gen(focus: &str, seed: u64, count: u64) -> Vec<String> {
                 let stream = g.below(3);
                 format!("kind=lj group={} shape={} {}", group, shape, state_params(&mut g, group, 1.5, stream))
             }
+            "C04" | "C08" | "C01" | "C10" if g.chance(0.12) => {
+                // optimised from the initial state (a clone is optimised, as the command line does)
+                let group = *g.pick(&GROUPS);
+                let lj = focus != "C01" && g.chance(0.3);
+                let shape = if lj { lj_shape(&mut g) } else { hard_shape(&mut g).0 };
+                format!(
+                    "kind={} group={} shape={} opt={}:{}:{}:{} k=1 zero=0 idx=0",
+                    if lj { "lj" } else { "hard" }, group, shape,
+                    *g.pick(&[200u64, 600, 1500]), g.below(1000), fmt_f(*g.pick(&[0., 0.1, 0.5])), 1 + g.below(3)
+                )
+            }
             _ => {
                 let group = *g.pick(&GROUPS);
                 let lj = match focus {
